@@ -14,7 +14,9 @@ from ..multi import Combined
 from ..canon import canon, digest
 from ..shrink import truncate_world
 from ..worlds import uni as U
+from ..worlds import deribit as W
 from .. import rng as R
+from .. import donors as DN
 from .c05 import gen_prices, grid_labels, ORDER
 
 ID = "C02"
@@ -66,6 +68,9 @@ def gen_base(seed, tier):
 
 
 def generate(seed: int, tier: str = "quick") -> dict:
+    rv = R.sub(seed, "flavour")
+    if rv.random() < 0.55:
+        return gen_donor(seed, tier, DN.pick(rv))
     sc, k, nb, labels, start = gen_base(seed, tier)
     rf = R.sub(seed, "faults")
     n = sc["world"]["n"]
@@ -85,6 +90,33 @@ def generate(seed: int, tier: str = "quick") -> dict:
     return sc
 
 
+def gen_donor(seed, tier, donor):
+    """history and program of another market family (aave, squeeth + pool, deribit alone or beside a minutely uniswap
+    market, gmx v1/v2) with the same twin-future machinery"""
+    base = DN.base_scenario(donor, seed, tier)
+    world = base["world"]
+    rf = R.sub(seed, "faults")
+    times = DN.bar_times(world)
+    nb = len(times)
+    n = int(world["n"])
+    k = DN.interval_minutes(world)
+    sc = {"property": ID, "seed": seed, "world": world, "program": base["program"], "faults": [{"kind": "donor:" + donor}], "donor": donor}
+    cands = sorted(set([0, max(0, nb - 2)] + [rf.randint(0, max(0, nb - 2)) for _ in range(2)]))
+    twins = []
+    for kb in cands:
+        if kb + 1 >= nb:
+            continue
+        j0 = DN.minute_of(world, times[kb + 1])
+        if j0 <= 0 or j0 >= n:
+            continue
+        j = min(n - 1, j0 + (rf.randint(0, k - 1) if k > 1 and rf.random() < 0.4 else 0))
+        kind = rf.choice(["freeze", "truncate", "random", "random"])
+        twins.append({"k": kb, "j": j, "kind": kind, "seed": rf.randint(0, 2**31), "mid_bin": j != j0})
+        sc["faults"].append({"kind": "future_divergence:" + kind, "bar": kb})
+    sc["twins"] = twins
+    return sc
+
+
 def _label(start, i, k):
     ts = start + pd.Timedelta(minutes=i)
     m = ts.hour * 60 + ts.minute
@@ -95,31 +127,85 @@ def make_twin(scenario, tw):
     """H' = H[0..j) ++ a different future"""
     n = int(scenario["world"]["n"])
     j = tw["j"]
+    has_hourly = any(m.get("kind") == "deribit" for m in scenario["world"]["markets"])
     if tw["kind"] == "truncate":
         sc = truncate_world(scenario, j)
+        if sc is not None and has_hourly:
+            sc = W.after_truncate(sc)
         if sc is None:
             return None
         sc["program"] = list(sc["program"])
         return sc
     sc = copy.deepcopy(scenario)
     rr = R.sub(tw["seed"], "future")
+    t_div = pd.Timestamp(scenario["world"]["start"]) + pd.Timedelta(minutes=j)
 
     def walk(o):
         if isinstance(o, dict):
+            if o.get("kind") == "deribit" and "hours" in o:  # hourly rows, handled as a whole (book levels are lists too)
+                return dict(o, hours=_diverge_hours(rr, o["hours"], t_div, tw["kind"]))
             vals = {k2: walk(o[k2]) for k2 in sorted(o)}  # sorted: the PRNG draw order must not depend on key order
             return {k2: vals[k2] for k2 in o}
         if isinstance(o, list):
-            if len(o) == n and not (o and isinstance(o[0], dict)):
+            if len(o) == n and not any(isinstance(x, (dict, list)) or _literal_kind(x) == "text" for x in o):
                 head = o[:j]
                 last = next((x for x in reversed(head) if x is not None), o[0])
                 if tw["kind"] == "freeze":
-                    return head + [last] * (n - j)
+                    return head + [last if _same_kind(last, x) else x for x in o[j:]]
                 return head + [_perturb(rr, last, x) for x in o[j:]]
             return [walk(x) for x in o]
         return o
 
     sc["world"] = walk(sc["world"])
     return sc
+
+
+def _diverge_hours(rr, hours, t_div, kind):
+    """hourly order-book rows at or after the divergence time get a different future: frozen = the last earlier
+    hour's rows repeated; random = marks, underlying and every book level rescaled and resized"""
+    from decimal import Decimal
+
+    out, last = [], None
+    for h in hours:
+        if pd.Timestamp(h["t"]) < t_div:
+            out.append(h)
+            last = h
+            continue
+        if kind == "freeze":
+            out.append({"t": h["t"], "rows": copy.deepcopy(last["rows"])} if last is not None else h)
+            continue
+        f = Decimal(repr(round(rr.uniform(0.6, 1.6), 4)))
+        g = Decimal(repr(round(rr.uniform(0.7, 1.4), 4)))
+        rows = {}
+        for nm in sorted(h["rows"]):
+            r = dict(h["rows"][nm])
+            r["mark"] = format((Decimal(r["mark"]) * f).quantize(Decimal("0.00000001")).normalize(), "f") if Decimal(r["mark"]) else r["mark"]
+            r["underlying"] = format((Decimal(r["underlying"]) * g).quantize(Decimal("0.01")), "f")
+            for side in ("asks", "bids"):
+                r[side] = [[format((Decimal(p) * f).quantize(Decimal("0.000001")).normalize(), "f"), str(int(Decimal(q)) + rr.randint(1, 40))] for p, q in r[side]]
+            rows[nm] = r
+        out.append({"t": h["t"], "rows": rows})
+    return out
+
+
+def _literal_kind(x):
+    """what pandas' dtype inference sees in a literal: whole number below / above the int64 limit, fraction, other"""
+    if isinstance(x, str):
+        try:
+            from decimal import Decimal
+
+            d = Decimal(x)
+        except Exception:
+            return "text"
+        if "." in x or "e" in x.lower():
+            return "fraction"
+        v = abs(int(d))
+        return "whole" if v < (1 << 63) else ("u64" if v < (1 << 64) else "huge")
+    return type(x).__name__
+
+
+def _same_kind(a, b):
+    return _literal_kind(a) == _literal_kind(b)
 
 
 def _perturb(rr, last, x):
@@ -131,10 +217,23 @@ def _perturb(rr, last, x):
     if isinstance(x, str):
         from decimal import Decimal
 
+        if _literal_kind(x) == "text":
+            return x
         d = Decimal(x)
-        if d == d.to_integral_value() and "." not in x:
-            return str(int(d * rr.randint(0, 5)) + rr.randint(0, 1000))
-        return format(d * Decimal(repr(round(rr.uniform(0.5, 1.8), 6))), "f")
+        if not d.is_finite():
+            return x
+        if d == d.to_integral_value() and "." not in x and "e" not in x.lower():
+            # whole-number literal (wei amounts, liquidity): stays a whole-number literal on the same side of the int64
+            # limit, so that the dtype pandas infers for the column (int64 vs object) is the same in both histories
+            v = int(d * Decimal(repr(round(rr.uniform(0.3, 3.0), 6)))) + rr.randint(0, 1000)
+            lo, hi = {"whole": (0, (1 << 63) - 1), "u64": (1 << 63, (1 << 64) - 1), "huge": (1 << 64, None)}[_literal_kind(x)]
+            if v < lo:
+                v = lo + rr.randint(0, 1000)
+            if hi is not None and v > hi:
+                v = hi - rr.randint(0, 1000)
+            return str(v)
+        out = format(d * Decimal(repr(round(rr.uniform(0.5, 1.8), 6))), "f")
+        return out if "." in out else out + ".0"
     if isinstance(x, float):
         return x * rr.uniform(0.5, 1.8)
     return x
@@ -157,6 +256,10 @@ def frame_hash(df):
     return digest([canon(df), [str(t) for t in df.dtypes], str(df.index.dtype), [str(c) for c in df.columns]])
 
 
+def _dtypes(fed):
+    return {name: [str(t) for t in df.dtypes] for name, df in fed.items()}
+
+
 def _prefix(events, k):
     out = []
     for e in events:
@@ -169,6 +272,8 @@ def _prefix(events, k):
 
 
 def execute(scenario):
+    if scenario.get("donor"):
+        DN.prepare(scenario["donor"])
     base = {kk: v for kk, v in scenario.items() if kk != "twins"}
     h0 = {}
     s1 = Sim(base, SnapshotLogger(), on_feed=lambda name, df: h0.__setitem__(name, frame_hash(df)))  # hashed before hand-over
@@ -187,13 +292,19 @@ def execute(scenario):
         res.violate("c02.rerun_differs", _ev_site(s1.events, s2.events, i), first_diff=i, a=_get(s1.events, i), b=_get(s2.events, i))
     if canon(s1.actuator.account_status) != canon(s2.actuator.account_status):
         res.violate("c02.rerun_differs", "account_status")
-    k_iv = int(pd.Timedelta(scenario["world"]["interval"]) / pd.Timedelta("1min"))
+    k_iv = DN.interval_minutes(scenario["world"])
     res.count("probe:resampled" if k_iv > 1 else "probe:minute")
+    res.count("probe:world:" + (scenario.get("donor") or "uni"))
     for tw in scenario.get("twins", []):
         sc2 = make_twin(base, tw)
         if sc2 is None:
             continue
         s3 = Sim(sc2, SnapshotLogger())
+        if _dtypes(s3.fed) != _dtypes(s1.fed):
+            # the two files do not "agree on bars 0..k" as frames: pandas inferred another dtype for some column from
+            # the later rows (int64 / uint64 / object / float64), so even the prefix cells are different objects
+            res.count("probe:twin_skipped_column_dtype_differs")
+            continue
         s3.run()
         res.op_results += s3.op_results
         res.events.append(["twin", tw["k"], tw["kind"], s3.events])
@@ -204,7 +315,7 @@ def execute(scenario):
             res.count("probe:divergence_inside_a_resample_bin")
         if any(e[1] == "op" and e[5] == "ok" for e in pa):
             res.count("probe:accepted_op_in_prefix")
-        res.state((tw["kind"], k == 0, k_iv > 1, bool(tw.get("mid_bin")), len(scenario["world"]["markets"]), scenario["world"]["prices"] is None))
+        res.state((tw["kind"], k == 0, k_iv > 1, bool(tw.get("mid_bin")), len(scenario["world"]["markets"]), scenario["world"]["prices"] is None, scenario.get("donor") or "uni"))
         if pa != pb:
             i = next((i for i, (a, b) in enumerate(zip(pa, pb)) if a != b), min(len(pa), len(pb)))
             res.violate("c02.lookahead", _ev_site(pa, pb, i) + ":" + tw["kind"], k=k, j=tw["j"], first_diff=i, a=_get(pa, i), b=_get(pb, i))
@@ -256,11 +367,12 @@ RULE = (
     "inside a resample bin. distinct_nontrivial counts distinct (future kind, k==0, resampled, mid-bin, markets, "
     "auto-price) twin classes compared"
 )
-BUDGET = {"quick": {"runs": 1200, "wall": 90}, "thorough": {"runs": 60000, "wall": 1500}}
+BUDGET = {"quick": {"runs": 900, "wall": 90}, "thorough": {"runs": 60000, "wall": 1500}}
 LEVEL = "exploration"
 ASSUMPTIONS = [
     "the first raw row is never a hole: the real loader back-fills a leading hole from the future by design",
     "programs are scripted; symbolic arguments read current state only",
+    "twin futures keep every value's literal kind (whole number in the int64 / uint64 / beyond range, decimal fraction, missing) where they can; a twin whose frames nevertheless get other column dtypes than the original's (pandas infers a column's dtype from the whole file: a property of the file format, not a look-ahead of the back test) is not compared",
     "the strategy can always read the whole supplied frame through strategy.data; look-ahead is judged on what the framework computes and hands over (snapshots, account rows, actions, operation results)",
 ]
 LEVEL_TEXT = (
